@@ -313,7 +313,7 @@ def run(ctx):
         if ctx.prop in ("C11", "C13", "C14"):
             ctx.mc("PithosMC", "Pithos.MCplace.cfg", timeout=1500, subst={"MaxClock": ctx.pick("4", "5")})
         else:
-            ctx.mc("PithosMC", "Pithos.MCver.cfg", timeout=1500, subst={"MaxClock": ctx.pick("6", "8")})
+            ctx.mc("PithosMC", "Pithos.MCver.cfg", timeout=1500, subst={"MaxClock": ctx.pick("6", "7")})
     # 2. program generation from the model
     nprog = ctx.pick(40, 400) if ctx.prop != "C03" else _c03_nprog(ctx)
     depth = ctx.pick(25, 40)
